@@ -1034,9 +1034,11 @@ func Explore(prog *Program, cfg Config) (*RunReport, error) {
 func (e *Engine) runPathRetry(wk *worker, fn *ssaFunction, it workItem) (res PathResult) {
 	// Solver processes are recycled between paths: a long incremental session
 	// makes z3 4.8.12 grow to several GB (16 workers x 3 solvers ran the machine
-	// out of memory in the thorough tier).
+	// out of memory in the thorough tier; cvc5 grows with the mirrored text
+	// rather than with the queries, hence the byte count).
 	recycle := func(s *Solver, kind SolverKind) *Solver {
-		if s.Queries-s.recycledAt < 1000 {
+		s.paths++
+		if s.Queries-s.recycledAt < 1000 && s.sent < 4<<20 && s.paths < 300 {
 			return s
 		}
 		ns, err := NewSolver(kind, e.cfg.TimeoutMs)
